@@ -246,7 +246,7 @@ func genFlags(r *Rand, doc *GDoc, today ymd, force string) *gFlags {
 				}
 				s += "=" + q + t.value + q
 			}
-			add("--tag", s, "tag="+hx(s))
+			add("--tag", strings.ReplaceAll(s, ",", "\\,"), "tag="+hx(s)) // kong splits a list flag at unescaped commas
 			f.tags = append(f.tags, t)
 		}
 		f.desc += "+tag"
